@@ -464,6 +464,18 @@ def correspond(model_ok, res):
         kind = kinds[i % len(kinds)]
         hidden = kind == "DBadFieldName" and r.random() < 0.25
         tree, d, p, nframes = plug_random(r, T, WF(r, T, z), r.randrange(0, 7), kind, hidden)
+        # positions are independent optional attributes: none, both, 0 / 0, pos alone, size alone — on the defect
+        # and on the root (a checker that locates its messages must cope with all of them)
+        for nd in (d, tree):
+            x = r.random()
+            if x < 0.15:
+                nd.pos, nd.size = r.randrange(0, 9), r.randrange(0, 9)
+            elif x < 0.25:
+                nd.pos, nd.size = 0, 0
+            elif x < 0.4:
+                nd.pos, nd.size = r.randrange(0, 9), None
+            elif x < 0.5:
+                nd.pos, nd.size = None, r.randrange(0, 9)
         cases.append((tree, z, (d, p, kind, hidden, nframes)))
 
     # ---- ONE node object at two positions (the model and lib.g_item read each occurrence separately)
